@@ -18,7 +18,7 @@ func init() {
 			"discarded; pointers decoded from store bytes are nil-filtered or nil-guarded; no explicit panic is reachable from RoundTrip; store read errors lead only to the miss path; " +
 			"every error returned derives from the origin call (or the 504 constructor); no (nil,nil) return; logging code is effect-free; foreground waits are selects with a " +
 			"timeout-derived context arm and buffered result channels.",
-		NotDecided: "panics or hangs inside the upstream transport, the standard library or third-party backends; slice-bound panics (cross-referenced only).",
+		NotDecided:  "panics or hangs inside the upstream transport, the standard library or third-party backends; slice-bound panics (cross-referenced only).",
 		Assumptions: []string{"http.RoundTripper contract: a non-nil error comes with a nil response"},
 		Rules: []Rule{
 			{ID: "C10.1", Desc: "nil response discipline", Run: ruleC10_1, MinSites: 3},
@@ -30,6 +30,7 @@ func init() {
 			{ID: "C10.7", Desc: "never (nil, nil)", Run: ruleC10_7, MinSites: 2},
 			{ID: "C10.8", Desc: "logging is inert", Run: ruleC10_8, MinSites: 3},
 			{ID: "C10.9", Desc: "bounded waits on the foreground path", Run: func(c *Ctx) { ruleBoundedWaits(c, "C10.9", true) }, MinSites: 3},
+			{ID: "C10.11", Desc: "the entry reader never returns (nil entry, nil error); the entry handed to the validation handler is never nil", Run: ruleC10_11, MinSites: 2},
 			{ID: "C10.10", Desc: "no mutex is left locked on any return (a failing store operation must not wedge the next RoundTrip)", Run: func(c *Ctx) { ruleC14_1(c); renameRule(c, "C14.1", "C10.10") }, MinSites: 4},
 		},
 	})
@@ -939,4 +940,175 @@ func isLoggerType(n *types.Named) bool {
 		return false
 	}
 	return typeIs(st.Field(0).Type(), "log/slog", "Handler")
+}
+
+// ruleC10_11: callers test only the error of the entry read and then dereference the entry; the validation handler
+// dereferences the stored entry of its context on every branch (304 merge, replacement, stale-if-error).
+//
+//	(a) in the entry reader, a return whose entry is the nil constant is dead once the returned error is nil;
+//	(b) at every call of the validation handler, the value placed in the context's entry field has no nil-constant source.
+func ruleC10_11(c *Ctx) {
+	if !c.Need("C10.11", "readEntry", "validationHandler") {
+		return
+	}
+	re := c.A.F("readEntry")
+	nRet := 0
+	badRet := ""
+	instrsOf(re, func(in ssa.Instruction) {
+		r, ok := in.(*ssa.Return)
+		if !ok || len(r.Results) != 2 || !isNilConst(r.Results[0]) {
+			return
+		}
+		nRet++
+		ev := r.Results[1]
+		if isNilConst(ev) {
+			badRet = c.P.InstrPos(in) + ": literal `return nil, nil`"
+			return
+		}
+		if call, isCall := ev.(*ssa.Call); isCall && c.constructsError(call) {
+			return // a freshly constructed error value
+		}
+		if mi, isMI := ev.(*ssa.MakeInterface); isMI {
+			// a concrete error object boxed here: &T{...} or the result of a constructor that returns one
+			if _, isAlloc := mi.X.(*ssa.Alloc); isAlloc {
+				return
+			}
+			if call, isCall := mi.X.(*ssa.Call); isCall {
+				if sc := call.Call.StaticCallee(); sc != nil && c.P.IsRepoFunc(sc) && len(sc.Blocks) > 0 {
+					allAlloc, nr := true, 0
+					for _, b := range sc.Blocks {
+						if rr, isRet := b.Instrs[len(b.Instrs)-1].(*ssa.Return); isRet && len(rr.Results) == 1 {
+							nr++
+							if _, isAlloc := rr.Results[0].(*ssa.Alloc); !isAlloc {
+								allAlloc = false
+							}
+						}
+					}
+					if allAlloc && nr > 0 {
+						return
+					}
+				}
+			}
+		}
+		pr := c.An.Prune(re, func(a *Atom) (bool, bool) {
+			if a.Key == "nil:err" && c.An.sameCanon(a.Val, ev) {
+				return true, true // the returned error is nil
+			}
+			return false, false
+		})
+		if pr.LiveBlock[r.Block().Index] {
+			badRet = c.P.InstrPos(in) + ": `return nil, err` is reachable with err == nil"
+		}
+	})
+	d1 := "the entry reader returns a nil entry only together with a non-nil error"
+	if badRet != "" {
+		c.Fail("C10.11", "entry-read-nil-nil", d1, badRet+"; RoundTrip checks only the error and hands the nil entry to the hit handler, which dereferences it: a store value of length 0 (a truncated file) panics in the caller's goroutine")
+	} else {
+		c.Pass("C10.11", "entry-read-nil-nil", d1, fmt.Sprintf("%s: %d returns of a nil entry, all under a non-nil error", c.P.ShortName(re), nRet))
+	}
+	// (b)
+	if c.A.RevalCtxT == nil || c.A.EntryT == nil {
+		return
+	}
+	st, ok := c.A.RevalCtxT.Underlying().(*types.Struct)
+	if !ok {
+		return
+	}
+	entryField := -1
+	for i := 0; i < st.NumFields(); i++ {
+		if isPtrToNamed(st.Field(i).Type(), c.A.EntryT) {
+			entryField = i
+		}
+	}
+	if entryField < 0 {
+		c.Undecided("C10.11", "context-entry", "the revalidation context has a stored-entry field", "no *entry field in "+c.A.RevalCtxT.Obj().Name())
+		return
+	}
+	n := 0
+	for fn := range c.A.Reach {
+		instrsOf(fn, func(in ssa.Instruction) {
+			if !c.An.CallsRole(in, "validationHandler") || c.A.roleOf[fn] == "validationHandler" {
+				return
+			}
+			_, args := recvAndArgs(callOf(in))
+			var ctxArg ssa.Value
+			for _, a := range args {
+				if isNamed(a.Type(), c.A.RevalCtxT) {
+					ctxArg = a
+				}
+			}
+			if ctxArg == nil {
+				return
+			}
+			n++
+			where := c.P.ShortName(fn) + "@" + c.P.InstrPos(in)
+			var srcs []string
+			nilSrc := ""
+			c.P.TraceBackPath(ctxArg, []int{entryField}, TraceOpts{NoParams: true, NoHeapFields: true}, func(v ssa.Value, path []int) bool {
+				if len(path) > 0 {
+					return true
+				}
+				switch y := v.(type) {
+				case *ssa.Const:
+					if y.Value == nil {
+						nilSrc = c.P.InstrPos(in)
+					}
+					return false
+				case *ssa.Extract:
+					if _, isCall := y.Tuple.(*ssa.Call); isCall {
+						// the result of a read: nil only together with an error (part (a)), which the caller tests (C10.5)
+						srcs = append(srcs, "call result")
+						return false
+					}
+					return true
+				case *ssa.Call:
+					srcs = append(srcs, "call result")
+					return false
+				case *ssa.Phi, *ssa.UnOp:
+					return true
+				}
+				srcs = append(srcs, fmt.Sprintf("%T", v))
+				return true
+			})
+			d2 := "the stored entry placed in the revalidation context is never the nil constant"
+			if nilSrc != "" {
+				c.Fail("C10.11", "context-entry fn="+c.P.ShortName(fn), d2, where+": on some path the context's entry is nil; the handler dereferences it in the stale-if-error and replacement branches (an origin answering 5xx to the background revalidation crashes the process)")
+			} else {
+				c.Pass("C10.11", "context-entry fn="+c.P.ShortName(fn), d2, where)
+			}
+		})
+	}
+	if n == 0 {
+		c.Undecided("C10.11", "context-entry", "a call of the validation handler exists", "none reachable from RoundTrip")
+	}
+}
+
+// constructsError: the call builds an error value (errors.New, fmt.Errorf, errors.Join of such, or a repo constructor all
+// of whose returns box a concrete value): its result is never nil.
+func (c *Ctx) constructsError(call *ssa.Call) bool {
+	if callIsPkgFunc(&call.Call, "errors", "New") || callIsPkgFunc(&call.Call, "fmt", "Errorf") {
+		return true
+	}
+	sc := call.Call.StaticCallee()
+	if sc == nil || !c.P.IsRepoFunc(sc) || len(sc.Blocks) == 0 {
+		return false
+	}
+	ok := true
+	n := 0
+	for _, b := range sc.Blocks {
+		r, isRet := b.Instrs[len(b.Instrs)-1].(*ssa.Return)
+		if !isRet || len(r.Results) != 1 {
+			continue
+		}
+		n++
+		switch x := r.Results[0].(type) {
+		case *ssa.MakeInterface:
+			if isNilConst(x.X) {
+				ok = false
+			}
+		default:
+			ok = false
+		}
+	}
+	return ok && n > 0
 }
